@@ -171,6 +171,12 @@ fn resolve_type(
     if let Some(import_path) = imports.iter().find(|import_path| {
         &type_.name == *import_path || import_path.ends_with(&format!(".{}", type_.name))
     }) {
+        // Imported built-in Android type (e.g. import android.os.ParcelFileDescriptor)
+        if let Some(android) = ast::AndroidTypeKind::from_qualified_name(import_path) {
+            type_.kind = ast::TypeKind::AndroidType(android);
+            return;
+        }
+
         if let Some(item_kind) = defined.get(import_path) {
             // Imported type is defined => set resolved item
             type_.kind = ast::TypeKind::ResolvedItem(import_path.to_owned(), item_kind.clone());
